@@ -180,6 +180,10 @@ def gen_cases(tier, seed):
     dns(["r:%s:80" % lh, "c", "r:%s:443" % lh], "dns-localhost", True)
     dns(["r:%s:1:%s" % (hx(b"10.1.2.3"), hx(bytes([10, 1, 2, 3]))), "r:%s:2:%s" % (hx(b"::1"), hx(bytes(15) + b"\x01"))], "dns-literal", False)
     dns(["r:%s:80" % hx(b"nonexistent.invalid")], "dns-unresolvable", False)
+    # concurrent COLD lookups of one name with different ports (multi-threaded runtime, cache cleared before each round):
+    # every request is answered with ITS port, whoever else is filling the cache at that moment (seed C07-5); no model side
+    for rounds, k in ([(150, 8)] if quick else [(600, 8), (400, 3), (300, 16)]):
+        add("dnsrace", [rounds, k, lh], "dns-concurrent-cold", True, model=False)
     names = [b"svc.test", b"db.internal", b"a", rname(r, 254), rname(r, 255)]
     ips4 = [bytes([10, 0, 0, k]) for k in range(1, 6)]
     ips6 = [bytes(15) + bytes([k]) for k in range(1, 4)]
@@ -349,6 +353,16 @@ def oracle(c, ir):
     if c.drv == "dial":
         exp = ref_dial(c.args)
         return None if ir.strip() == exp else "dialled %s, requested %s (case: %s)" % (ir.strip(), exp, " ".join(c.args)[:300])
+    if c.drv == "dnsrace":
+        f = dict(t.split("=") for t in ir.split() if "=" in t)
+        if "mismatch" not in f:
+            return "concurrent-lookup driver failed: " + ir[:200]
+        if f["mismatch"] != "0":
+            return ("%s of %s concurrent cold lookups of one host name were answered with the port of ANOTHER request (first: asked:got = %s): "
+                    "the destination's port must be the one the client named" % (f["mismatch"], f["total"], f.get("first")))
+        if f["err"] != "0":
+            return "%s of %s lookups of localhost failed" % (f["err"], f["total"])
+        return None
     if c.drv == "dns":
         tbl = {}
         if c.args[0] != "-":
